@@ -23,6 +23,7 @@ type prophetState struct {
 	lastKey    [2]uint64
 	events     []prophetEvent                // encounters / imports / ageing ticks with the instant they happened
 	lastCreated time.Time
+	bornAt     time.Time                     // start of the incarnation this state describes
 	pInit, beta, gamma float64
 }
 
@@ -34,7 +35,7 @@ type prophetEvent struct {
 
 func (n *nodeSim) prophet() *prophetState {
 	if n.pst == nil {
-		n.pst = &prophetState{ref: map[string]float64{}, adv: map[int]map[string]float64{},
+		n.pst = &prophetState{ref: map[string]float64{}, adv: map[int]map[string]float64{}, bornAt: n.pstBorn,
 			pInit: n.c.CfgF("p_init", 0.75), beta: n.c.CfgF("beta", 0.25), gamma: n.c.CfgF("gamma", 0.98)}
 	}
 	return n.pst
@@ -156,6 +157,7 @@ func (n *nodeSim) prophetOnAgeTick() {
 
 func (n *nodeSim) prophetOnRestart() {
 	n.pst = nil
+	n.pstBorn = time.Now()
 }
 
 // prophetEmission: a metadata bundle of this node reached a scripted peer.
@@ -178,6 +180,12 @@ func (n *nodeSim) prophetEmission(rec *sendRec) {
 	key := [2]uint64{uint64(ct.DtnTime()), ct.SequenceNumber()}
 	if st.haveEmit && (key[0] < st.lastKey[0] || (key[0] == st.lastKey[0] && key[1] < st.lastKey[1])) {
 		n.res.Probe("prophet_stale_emission_skipped")
+		return
+	}
+	// a metadata bundle created by an earlier incarnation (waiting in the store, sent after the restart)
+	// describes the vector that the restart discarded: not comparable with this incarnation's emissions
+	if !st.bornAt.IsZero() && ct.DtnTime().Time().Before(st.bornAt.Add(-time.Millisecond)) {
+		n.res.Probe("prophet_emission_of_earlier_incarnation_skipped")
 		return
 	}
 	st.lastKey = key
